@@ -151,7 +151,8 @@ def run_worker(case, choices):
             res.states.add(h64("worker-abort", kind, T, p.state))
             res.from_log(sim.log)
             return res
-        if p.state != "running" and (term_at is None or sim.now < term_at):
+        # (asked to leave = the TERM was delivered; comparing clock values is wrong when the request ends in the very instant of the TERM)
+        if p.state != "running" and not any(sg == int(signal.SIGTERM) for _, sg in p.sig_received):
             res.violate("C11:worker:%s:exited" % kind, "the worker exited (%r) by itself; boot_error=%r; %s" % (p.status, w.boot_error, ctx()))
         gaps = [b - a for a, b in zip(beats, beats[1:])]
         end_t = sim.now if p.state == "running" else getattr(p, "exit_time", sim.now)
